@@ -2,6 +2,7 @@ package main
 
 import (
 	"encoding/base64"
+	"encoding/hex"
 	"fmt"
 	"math/rand"
 	"strconv"
@@ -157,6 +158,31 @@ func execDec(op string, a []string) string {
 			return "HELPER-ACCEPTS-MALFORMED-TEXT"
 		}
 		return "ok " + string(t)
+	case "dec.bytestrjson", "dec.bytestrtext":
+		// the text / JSON decoders of ByteStr called directly with arbitrary octets (encoding/json would pre-validate):
+		// hex between quotes (JSON; `null` leaves the value alone) or bare hex (text); anything else is an error
+		in := unhx(a[0])
+		var b key.ByteStr = key.ByteStr{0xee}
+		var err error
+		if op == "dec.bytestrjson" {
+			err = b.UnmarshalJSON(in)
+			// the label-map types hand the same octets to the same decoder first: no panic there either
+			var cm key.CoseMap
+			var kk key.Key
+			cm.UnmarshalJSON(in)
+			kk.UnmarshalJSON(in)
+		} else {
+			err = b.UnmarshalText(in)
+			var cm key.CoseMap
+			cm.UnmarshalText(in)
+		}
+		if err != nil {
+			return "err"
+		}
+		if len(b) == 1 && b[0] == 0xee && string(in) == "null" {
+			return "ok null"
+		}
+		return "ok " + hx(b)
 	case "dec.keyjson":
 		// a key survives the JSON and text forms (hex of its CBOR encoding)
 		k := keyFromToks(a)
@@ -367,6 +393,15 @@ func genDecOps(r *rand.Rand, n int) []string {
 		}
 		out = append(out, "dec.recipient "+hx(rb))
 		out = append(out, "dec.bytestr "+optBytes(r))
+		{ // text forms given directly to the decoders: well-formed, and malformed in every small way
+			hexs := hex.EncodeToString(randBytes(r, r.Intn(6)))
+			if r.Intn(3) == 0 {
+				hexs = strings.ToUpper(hexs)
+			}
+			cands := []string{`"` + hexs + `"`, hexs, `"`, ``, `""`, `"0"`, `"zz"`, `"` + hexs, hexs + `"`, `null`, `x`, `"` + hexs + `0"`, ` "` + hexs + `"`, `'` + hexs + `'`, `"\"`, `nul`, `"0g"`}
+			c := cands[r.Intn(len(cands))]
+			out = append(out, "dec.bytestrjson "+hx([]byte(c)), "dec.bytestrtext "+hx([]byte(c)))
+		}
 		alg := symAlgs[r.Intn(len(symAlgs))]
 		out = append(out, "dec.keyjson "+genSymKey(r, alg, true))
 		// signature and ECDH keys, private and public, through JSON / text / CBOR into fresh and used variables
